@@ -65,6 +65,38 @@ impl DateTime<Utc> {
     pub fn format(&self, fmt: &str) -> (r: DelayedFormat) ensures r.out == strftime(self.ns, fmt@) { unimplemented!() }
     #[verifier::external_body]
     pub fn date_naive(&self) -> (r: NaiveDate) ensures r == utc_date(self.ns) { unimplemented!() }
+    /// chrono::SubsecRound::trunc_subsecs(0): drops the sub-second part (rounds towards the past)
+    #[verifier::external_body]
+    pub fn trunc_subsecs(self, digits: u16) -> (r: DateTime<Utc>)
+        ensures digits == 0 ==> r.ns == self.ns - (self.ns % 1_000_000_000)
+    { unimplemented!() }
+    #[verifier::external_body]
+    pub fn timestamp(&self) -> (r: i64) ensures r as int == self.ns / 1_000_000_000 { unimplemented!() }
+    /// `a - b` / signed_duration_since
+    #[verifier::external_body]
+    pub fn signed_duration_since(self, other: DateTime<Utc>) -> (r: Duration) ensures r.ns == self.ns - other.ns { unimplemented!() }
+}
+impl PartialEq for NaiveDate {
+    #[verifier::external_body]
+    fn eq(&self, other: &Self) -> (r: bool) ensures r == (self.days == other.days) { unimplemented!() }
+}
+pub struct ChronoParseError;
+impl NaiveDate {
+    /// NaiveDate::parse_from_str: chrono's lenient strptime-style parser; which strings it accepts is NOT specified here (uninterpreted)
+    pub uninterp spec fn spec_parse_from_str(s: Seq<char>, fmt: Seq<char>) -> Option<NaiveDate>;
+    #[verifier::external_body]
+    pub fn parse_from_str(s: &str, fmt: &str) -> (r: Result<NaiveDate, ChronoParseError>)
+        ensures Self::spec_parse_from_str(s@, fmt@) is Some ==> r is Ok && r->Ok_0 == Self::spec_parse_from_str(s@, fmt@)->Some_0,
+                Self::spec_parse_from_str(s@, fmt@) is None ==> r is Err
+    { unimplemented!() }
+}
+impl Duration {
+    #[verifier::external_body]
+    pub fn seconds(s: i64) -> (r: Duration) ensures r.ns == s * 1_000_000_000 { unimplemented!() }
+    #[verifier::external_body]
+    pub fn num_seconds(&self) -> (r: i64) ensures r as int == self.ns / 1_000_000_000 { unimplemented!() }
+    #[verifier::external_body]
+    pub fn num_minutes(&self) -> (r: i64) ensures r as int == self.ns / 60_000_000_000 { unimplemented!() }
 }
 impl DateTime<FixedOffset> {
     /// conversion to UTC keeps the instant
